@@ -209,6 +209,10 @@ def snap_fit(f):
            "data": np.array(f.data, dtype=float).tolist(), "fixed": sorted(f._fitter.fixed_parameters), "limited": sorted(f._fitter.limited_parameters), "did_fit": bool(f.did_fit)}
     if f.has_errors:
         out["total_error"] = np.array(f.total_error, dtype=float).tolist()
+    if f.did_fit:          # the results of the fit are part of what a rejected call must leave alone
+        cm = f.parameter_cov_mat
+        out["parameter_cov_mat"] = None if cm is None else np.round(np.asarray(cm, dtype=float), 10).tolist()
+        out["parameter_errors"] = np.round(np.asarray(f.parameter_errors, dtype=float), 10).tolist()
     return out
 
 
